@@ -440,12 +440,26 @@ def m_missing_resurrect(f, case, viol):
     the user deleted the file.  Needs a path-id acting side and 'write|create P ... delete P' by that side's user; every
     differing path must be such a P."""
     flav = str(case.get("cfg", {}).get("flavour", ""))
-    ops = user_ops(case)
+    plan = case.get("plan", [])
     cand = set()
-    for i, u in enumerate(ops):
-        if u[2] == "delete" and len(flav) >= 2 and flav[u[1]] == "p":
-            if any(v[1] == u[1] and v[2] in ("write", "create") and v[3] == u[3] for v in ops[:i]):
-                cand.add(u[3])
+    for i, u in enumerate(plan):
+        if not (u and u[0] == "U" and u[2] == "delete" and len(flav) >= 2 and flav[u[1]] == "p"):
+            continue
+        if not any(v and v[0] == "U" and v[1] == u[1] and v[2] in ("write", "create") and v[3] == u[3] for v in plan[:i]):
+            continue
+        # the unchanged engine gives up only at the fifth attempt (priority > 4): at least five sync-manager steps must lie
+        # between the delete and the next complete intake of that side's events (or a run to quiet, or the end of the plan)
+        attempts = 0
+        for k in range(i + 1, len(plan)):
+            w = plan[k]
+            if _quiet(w):
+                break
+            if w and w[0] == "S" and w[1] == u[1] and not (plan[k - 1] and plan[k - 1][0] == "E" and plan[k - 1][1] == u[1]):
+                break
+            if w and w[0] == "S" and w[1] == 2:
+                attempts += 1
+        if attempts >= 5:
+            cand.add(u[3])
     paths = _diff_paths(viol)
     return bool(paths) and all(_unconf(p) in cand for p in paths)
 
